@@ -68,6 +68,22 @@ def case_rescale(case):
                     v.append({"sub": "shape", "sig": "shape", "msg": "%s: result shape %s" % (lab, r.shape)})
                     continue
                 _check_bounds(f, g, r.ravel(), "%s (f %s, g %s)" % (lab, np.dtype(fdt).name, np.dtype(gdt).name), v, "/g-%s" % ("integer" if gdt is not float else "float"))
+            # the same cells in other memory layouts: Fortran order and transposed views of the transposed problem
+            if len(v) < 6 and (fs.index(f) + gs.index(g)) % 7 == 0:
+                fa = np.array(f, float).reshape(shape)
+                ga = np.array(g, float).reshape(shape)
+                base = np.asarray(get_source_area(fa, ga))
+                for lname, f2, g2, back in (("Fortran-ordered g", fa, np.asfortranarray(ga), lambda r: r), ("Fortran-ordered f and g", np.asfortranarray(fa), np.asfortranarray(ga), lambda r: r),
+                                            ("transposed views", fa.T.copy().T, ga.T.copy().T, lambda r: r), ("transposed problem", fa.T, ga.T, lambda r: r.T)):
+                    r = np.asarray(get_source_area(f2, g2))
+                    n += 1
+                    if lname == "transposed problem" and len(set(g)) < ncell:
+                        # tied cells may be counted in another order once the cells are stored in another order: bounds only
+                        if r.shape == f2.shape:
+                            _check_bounds(list(np.asarray(f2).ravel()), list(np.asarray(g2).ravel()), r.ravel(), "%s (%s)" % (lab, lname), v, "/layout")
+                            continue
+                    if r.shape != f2.shape or not np.array_equal(back(r), base):
+                        v.append({"sub": "layout", "sig": "layout/%s" % lname.split()[0], "msg": "%s, %s: result %s differs from the C-ordered call %s" % (lab, lname, np.asarray(back(r)).tolist() if r.shape == f2.shape else r.shape, base.tolist())})
             tie_free = len(set(g)) == ncell
             if tie_free and len(v) < 6:
                 base = np.asarray(get_source_area(np.array(f, float).reshape(shape), np.array(g, float).reshape(shape))).ravel()
@@ -201,9 +217,15 @@ def case_builtin(case):
     return {"v": v[:6], "nt": n, "n": n}
 
 
+_HIST_BUF = {}
+
+
 def _hist_field(k, shape):
+    # one array object per shape, refilled in place for every call (a running accumulation does exactly this)
     rng = np.random.default_rng(100 + k)
-    return np.round(rng.random(shape) * 64) / 64
+    buf = _HIST_BUF.setdefault(tuple(shape), np.empty(shape))
+    buf[...] = np.round(rng.random(shape) * 64) / 64
+    return buf
 
 
 HIST_OPS = [
@@ -226,7 +248,8 @@ def hist_op(i):
     f = _hist_field(op["f"], shape)
     y, x = np.arange(shape[0]) * 4.0, np.arange(shape[1]) * 2.0
     if op["kind"] == "rescale":
-        g = _hist_field(op["g"], shape)
+        g = _hist_field(op["g"], shape).copy()
+        f = _hist_field(op["f"], shape)
         if op.get("gint"):
             g = (g * 64).astype(np.int64)
         return np.asarray(bu.get_source_area(f, g))
